@@ -3,6 +3,7 @@ package main
 // C16 — CMS structures survive parsing and re-encoding bit-exactly.
 
 import (
+	"go/ast"
 	"fmt"
 	"go/types"
 	"strings"
@@ -158,6 +159,36 @@ func runC16(c *Ctx) {
 				}
 			}
 		}
+		// or handed to a helper of the package that writes that very parameter into a hash
+		for _, b := range fn.Blocks {
+			for _, in := range b.Instrs {
+				ci, ok := in.(ssa.CallInstruction)
+				if !ok {
+					continue
+				}
+				h := ci.Common().StaticCallee()
+				if h == nil || pkgOf(h) != pkgOf(fn) || len(h.Blocks) == 0 {
+					continue
+				}
+				for k, arg := range ci.Common().Args {
+					src, idx := resultOf(arg)
+					isAab := false
+					for _, a := range aab {
+						if src == a && idx == 0 {
+							isAab = true
+						}
+					}
+					if !isAab || k >= len(h.Params) {
+						continue
+					}
+					for _, w := range p.callsIn(h, "(io.Writer).Write", "(hash.Hash).Write") {
+						if w.Common().Args[0] == ssa.Value(h.Params[k]) {
+							hashed = true
+						}
+					}
+				}
+			}
+		}
 		c.Check(len(aab) == 1 && hashed, "R16b", p.FName(fn)+" hashes AuthenticatedAttributesBytes()", p.Pos(fn.Pos()), "attribute digest computed over the original encoding", "the verifier does not hash the bytes returned by AuthenticatedAttributesBytes()")
 		remarshal := len(p.callsIn(fn, "(*lib/pkcs7.AttributeList).Bytes", "encoding/asn1.Marshal", "lib/pkcs7.marshalUnsortedSet"))
 		c.Check(remarshal == 0, "R16b", p.FName(fn)+" does not re-marshal attributes", p.Pos(fn.Pos()), "", "the verifier re-marshals the parsed attribute list: a token whose attributes are not in Go's canonical order would fail to verify")
@@ -191,8 +222,10 @@ func runC16(c *Ctx) {
 		c.Analysed(p.FName(sb))
 		// hashed: sb.authAttrs.Bytes(); emitted: AuthenticatedAttributes: sb.authAttrs
 		hashedKey, emittedKey := "", ""
-		for _, ci := range p.callsIn(sb, "(*lib/pkcs7.AttributeList).Bytes") {
-			hashedKey = p.memKey(ci.Common().Args[0])
+		for _, f := range c16SignFamily(p, sb) {
+			for _, ci := range p.callsIn(f, "(*lib/pkcs7.AttributeList).Bytes") {
+				hashedKey = p.memKey(ci.Common().Args[0])
+			}
 		}
 		for _, b := range sb.Blocks {
 			for _, in := range b.Instrs {
@@ -215,7 +248,7 @@ func runC16(c *Ctx) {
 			switch oid {
 			case "g:lib/pkcs7.OidAttributeContentType", "g:lib/pkcs7.OidAttributeMessageDigest":
 				addCalls[oid] = append(addCalls[oid], p.FName(fn)+"@"+p.Pos(ci.Pos()))
-				if sb != nil && fn == sb {
+				if sb != nil && c16InFamily(p, sb, fn) {
 					nn := Guard{Name: "authAttrs != nil", Match: func(f Fact) bool {
 						_, fld, _ := p.fieldLoad(f.V)
 						return f.Kind == NonNil && fld == "authAttrs"
@@ -233,7 +266,15 @@ func runC16(c *Ctx) {
 	}
 	for _, oid := range []string{"g:lib/pkcs7.OidAttributeContentType", "g:lib/pkcs7.OidAttributeMessageDigest"} {
 		sites := addCalls[oid]
-		ok := len(sites) == 1 && strings.HasPrefix(sites[0], "(*lib/pkcs7.SignatureBuilder).Sign@")
+		ok := len(sites) == 1
+		if ok && sb != nil {
+			ok = false
+			for _, f := range c16SignFamily(p, sb) {
+				if strings.HasPrefix(sites[0], p.FName(f)+"@") {
+					ok = true
+				}
+			}
+		}
 		c.Check(ok, "R16c", "single adder of "+oid[len("g:lib/pkcs7."):], "-", strings.Join(sites, ","), fmt.Sprintf("attribute is added at %v; it must be added exactly once, by SignatureBuilder.Sign (a second copy makes the SET invalid)", sites))
 	}
 	// Sign() once per builder
@@ -737,4 +778,53 @@ func c16WhoWrites(c *Ctx) {
 	if n == 0 {
 		c.Undecided("R16i", "writers of received pkcs7 structures", "-", "not even Detach's store was found")
 	}
+}
+
+// c16SignFamily: SignatureBuilder.Sign and the unexported methods of the builder that only Sign calls
+// (steps of Sign that were given a name).
+func c16SignFamily(p *Prog, sign *ssa.Function) []*ssa.Function {
+	out := []*ssa.Function{sign}
+	for _, b := range sign.Blocks {
+		for _, in := range b.Instrs {
+			ci, ok := in.(ssa.CallInstruction)
+			if !ok {
+				continue
+			}
+			g := ci.Common().StaticCallee()
+			if g == nil || len(g.Blocks) == 0 || g.Signature.Recv() == nil || ast.IsExported(g.Name()) {
+				continue
+			}
+			if sign.Signature.Recv() == nil || !types.Identical(g.Signature.Recv().Type(), sign.Signature.Recv().Type()) {
+				continue
+			}
+			// called from nowhere else
+			only := true
+			for _, fn := range p.Funcs {
+				if fn == sign {
+					continue
+				}
+				for _, bb := range fn.Blocks {
+					for _, i2 := range bb.Instrs {
+						if c2, ok := i2.(ssa.CallInstruction); ok && c2.Common().StaticCallee() == g {
+							only = false
+						}
+					}
+				}
+			}
+			// and once, outside any loop
+			if only && !inCycleWith(sign, ci.Block(), nil) {
+				out = append(out, g)
+			}
+		}
+	}
+	return out
+}
+
+func c16InFamily(p *Prog, sign, fn *ssa.Function) bool {
+	for _, f := range c16SignFamily(p, sign) {
+		if f == fn {
+			return true
+		}
+	}
+	return false
 }
